@@ -212,7 +212,7 @@ def unrepr_label(x):
 
 def raw_graphs(chk, tier, model_ok, stats):
     r = common.rng("C15-raw")
-    n = 12000 if tier == "quick" else 250000
+    n = 12000 if tier == "quick" else 150000
     lines, pending = [], []
     for i in range(n):
         raw_case(chk, r, FAMILIES[i % len(FAMILIES)], lines, pending, stats)
@@ -510,8 +510,17 @@ def module_case(chk, files, main, intended, intended_imports, tag, batch, stats)
     ir2, errors2, exc2 = emb.compile_text(files, main=main)
     if exc2 is not None:
         tb = traceback.extract_tb(exc2.__traceback__)[-1]
-        chk.violation("input", dict(rec, observed="exception %r" % exc2, expected="IR or located errors"),
-                      key="crash:%s:%s:%s" % (tb.filename.split("/")[-1], tb.name, type(exc2).__name__))
+        key = "crash:%s:%s:%s" % (tb.filename.split("/")[-1], tb.name, type(exc2).__name__)
+        if real_groups or isinstance(exc2, RecursionError):
+            # a later pass ran although a cycle was found, or recursed without bound
+            chk.violation("input", dict(rec, observed="exception %r" % exc2, expected="IR or located errors"), key=key)
+        else:
+            # the dependency check was correct (oracle: no cycle) and a later pass crashed:
+            # not this property (C16: the compiler is total); recorded, reported in the notes
+            stats["crash-in-later-pass:" + key] += 1
+            chk.extra.setdefault("crashes_outside_property", [])
+            if len(chk.extra["crashes_outside_property"]) < 3:
+                chk.extra["crashes_outside_property"].append({"key": key, "files": files, "exception": repr(exc2)})
         return
     full = summarize(errors2)
     # glue.process_ir defers error groups that mention a synthetic location (suffix `*`)
@@ -798,15 +807,15 @@ def real_modules(chk, tier, model_ok, stats):
     for tag, files in PINNED:
         main = "a.emb" if "a.emb" in files else "m.emb"
         module_case(chk, files, main, {}, None, "pinned", batch, stats)
-    n = 220 if tier == "quick" else 3000
+    n = 220 if tier == "quick" else 2500
     for i in range(n):
         files, main, intended = gen_module(r, stats)
         module_case(chk, files, main, intended, None, "mixed", batch, stats)
-    for i in range(160 if tier == "quick" else 2500):
+    for i in range(160 if tier == "quick" else 2000):
         files, main, intended = gen_struct(r, r.randint(1, 12), r.randint(0, 2),
                                            r.choice([0, 0, 0, 0.05, 0.2, 0.5]))
         module_case(chk, files, main, intended, None, "struct", batch, stats)
-    for i in range(120 if tier == "quick" else 1500):
+    for i in range(120 if tier == "quick" else 1200):
         files, main, intended, imps = gen_imports(r, stats)
         module_case(chk, files, main, intended, imps, "imports", batch, stats)
     if model_ok:
